@@ -649,13 +649,17 @@ func (t *T) cleanup() {
 
 	// If a cleanup function panics,
 	// we still want to run the remaining cleanup functions.
+	// Skipping (invalid data) from one of them can not undo that panic.
+	completed := false
 	defer func() {
 		t.mu.Lock()
 		recurse := len(t.cleanups) > 0
 		t.mu.Unlock()
 
-		if recurse {
+		if recurse && completed {
 			t.cleanup()
+		} else if recurse {
+			t.cleanupAfterFailure()
 		}
 	}()
 
@@ -684,6 +688,7 @@ func (t *T) cleanup() {
 
 		cleanup()
 	}
+	completed = true
 }
 
 // cleanupAfterFailure runs the cleanup tasks of a T whose function has already failed:
